@@ -16,7 +16,8 @@ ASSUMPTIONS = [
     'std BinaryHeap/mpsc keep what is pushed/sent (trusted); unwinding paths are outside the rule',
 ]
 MANIFEST = {'text': 'proof (all normal paths of the stage function) of: no message-carrying value is dropped un-drained, none is cloned, no lossy container operation, '
-                    'final flush drains the heap before Ok, the stage writes no DltMessage field, heap comparator is key-based. Ordering under bounded delay is not decided.'}
+                    'final flush drains the heap before Ok, the stage writes no DltMessage field, heap comparator is key-based. Ordering under bounded delay is not decided.'
+                    ' Added (ordering half, necessary conditions only): the heap key is capped at the reception time and the release threshold is never below the configured minimum delay.'}
 
 
 def stage_bodies(F):
